@@ -11,12 +11,16 @@ package main
 
 import (
 	"fmt"
+	"io"
 	"math/rand"
 	"net/http"
+	"net/http/httptest"
 	"os"
 	"path/filepath"
+	"runtime"
 	"sort"
 	"strings"
+	"sync"
 
 	"github.com/olareg/olareg/internal/verif/vh"
 )
@@ -302,15 +306,27 @@ func (e *env) manifests(rng *rand.Rand) {
 	}
 	e.have[repo][cfg.D] = cfg.B
 	e.probe[cfg.D] = true
-	for n := 0; n < 8 && !e.bad; n++ {
+	var prev *vh.Man // a manifest acknowledged earlier in this repository
+	for n := 0; n < 10 && !e.bad; n++ {
 		alg := algs[rng.Intn(3)]
 		m := vh.MkImage(fmt.Sprintf("m%d", n), alg, vh.MTImage, cfg, vh.MTConfig, nil, "", "", map[string]string{"n": fmt.Sprintf("%d.%d", e.idx, n)})
 		other := vh.MkImage("o", alg, vh.MTImage, cfg, vh.MTConfig, nil, "", "", map[string]string{"n": fmt.Sprintf("other%d.%d", e.idx, n)})
-		kind := []string{"right", "right", "wrong-hex", "prefix", "wrong-alg-label"}[rng.Intn(5)]
+		kind := []string{"right", "right", "wrong-hex", "prefix", "wrong-alg-label", "existing-manifest", "existing-blob"}[rng.Intn(7)]
+		if kind == "existing-manifest" && prev == nil {
+			kind = "existing-blob"
+		}
 		decl := m.D
 		switch kind {
 		case "wrong-hex":
 			decl = other.D
+		case "existing-manifest":
+			// the digest of a manifest that is already stored in the repository, under either algorithm
+			decl = []string{prev.D, vh.DigestOf("sha512", prev.Raw), vh.DigestOf("sha256", prev.Raw)}[rng.Intn(3)]
+			if e.have[repo][decl] == nil {
+				decl = prev.D
+			}
+		case "existing-blob":
+			decl = cfg.D
 		case "prefix":
 			decl = vh.DigestOf(alg, m.Raw[:len(m.Raw)/2])
 		case "wrong-alg-label":
@@ -345,6 +361,10 @@ func (e *env) manifests(rng *rand.Rand) {
 				return
 			}
 			e.have[repo][decl] = m.Raw
+			prev = m
+			if how == "tag" {
+				prev = nil // (m.D may be of another algorithm than the one the push was stored under)
+			}
 			if how != "digest" {
 				// by tag: the answer must report a digest the bytes hash to
 				rq := vh.Req{Method: "GET", URL: fmt.Sprintf("/v2/%s/manifests/tg%d", repo, n), H: map[string]string{"Accept": vh.AcceptAll}}
@@ -544,10 +564,150 @@ func batch(r *vh.Run, i int) {
 	}
 }
 
+type pipeBody struct{ r *io.PipeReader }
+
+func (p *pipeBody) Read(b []byte) (int, error) { return p.r.Read(b) }
+func (p *pipeBody) Close() error               { return p.r.Close() }
+
+// interleave: requests of ONE session in flight at the same time ("every interleaving of sessions").  After a first
+// chunk A is stored, a streamed PATCH that delivers B in pieces races with the completing PUT that declares the
+// digest of A (or of A+B, or of a prefix).  Whatever the outcome of the two requests, every digest involved is read
+// afterwards and what is served must hash to it.  Under the vsync variant every lock and unlock of the stores is
+// followed by a random yield or sleep, which opens the windows between their critical sections.
+func interleave(r *vh.Run, i int) {
+	rng := r.Rand(5_000_000 + i)
+	kind := []vh.StoreKind{vh.Mem, vh.Dir, vh.Mem, vh.MemDir}[i%4]
+	root := ""
+	if kind != vh.Mem {
+		root = r.TempDir("c01i")
+		defer vh.RemoveAll(root)
+	}
+	srv := vh.New(vh.Conf(kind, root, vh.Neutral))
+	defer srv.Close()
+	for t := 0; t < 6; t++ {
+		alg := algs[rng.Intn(3)]
+		a := []byte(fmt.Sprintf("first part %d.%d;", i, t))
+		var pieces [][]byte
+		var b []byte
+		for k := 1 + rng.Intn(4); k > 0; k-- {
+			pc := []byte(fmt.Sprintf("piece %d of %d.%d;", k, i, t))
+			pieces = append(pieces, pc)
+			b = append(b, pc...)
+		}
+		ab := append(append([]byte{}, a...), b...)
+		rs := vh.Do(srv, vh.Req{Method: "POST", URL: "/v2/il/blobs/uploads/?digest-algorithm=" + alg})
+		loc := rs.H.Get("Location")
+		if rs.Status != 202 || loc == "" {
+			continue
+		}
+		ps := vh.Do(srv, vh.Req{Method: "PATCH", URL: loc, Body: a})
+		if ps.Status != 202 || ps.H.Get("Location") == "" {
+			continue
+		}
+		loc = ps.H.Get("Location")
+		declKind := []string{"first-part", "first-part", "all", "first-part-and-one-piece"}[rng.Intn(4)]
+		var declared []byte
+		switch declKind {
+		case "first-part":
+			declared = a
+		case "all":
+			declared = ab
+		default:
+			declared = append(append([]byte{}, a...), pieces[0]...)
+		}
+		d := vh.DigestOf(alg, declared)
+		pr, pw := io.Pipe()
+		req := httptest.NewRequest("PATCH", loc, &pipeBody{r: pr})
+		req.ContentLength = -1
+		var wg sync.WaitGroup
+		var stPatch, stPut int
+		wg.Add(2)
+		go func() {
+			defer wg.Done()
+			w := httptest.NewRecorder()
+			func() {
+				defer func() { _ = recover() }()
+				srv.ServeHTTP(w, req)
+			}()
+			_ = pr.Close() // a handler that answered without reading the body must not block the sender
+			stPatch = w.Code
+		}()
+		delay := rng.Intn(4)
+		go func() {
+			defer wg.Done()
+			for k := 0; k < delay; k++ {
+				runtime.Gosched()
+			}
+			sep := "&"
+			if !strings.Contains(loc, "?") {
+				sep = "?"
+			}
+			stPut = vh.Do(srv, vh.Req{Method: "PUT", URL: loc + sep + "digest=" + d}).Status
+		}()
+		for _, pc := range pieces {
+			_, _ = pw.Write(pc)
+			runtime.Gosched()
+		}
+		_ = pw.Close()
+		wg.Wait()
+		r.Count("interleaved_completions", 1)
+		r.Distinct("cells", fmt.Sprintf("interleave/%s/%s/%s/patch%d/put%d", kind, alg, declKind, stPatch/100, stPut/100))
+		// every digest a client could name for this session
+		cands := [][]byte{a, ab}
+		acc := append([]byte{}, a...)
+		for _, pc := range pieces {
+			acc = append(acc, pc...)
+			cands = append(cands, append([]byte{}, acc...))
+		}
+		for _, c := range cands {
+			for _, al := range algs {
+				dd := vh.DigestOf(al, c)
+				for _, m := range []string{"GET", "HEAD"} {
+					rq := vh.Req{Method: m, URL: "/v2/il/blobs/" + dd}
+					g := vh.Do(srv, rq)
+					r.Count("probes", 1)
+					if g.Status != 200 {
+						continue
+					}
+					r.Count("interleave_served", 1)
+					if p := vh.G1(rq, g); p != "" {
+						r.Violation("g1:interleaved-session", fmt.Sprintf("after a streamed PATCH (%d pieces, answered %d) raced with PUT ?digest=<%s> (answered %d) on one session: %s %s: %s", len(pieces), stPatch, declKind, stPut, m, rq.URL, p),
+							map[string]any{"trial": i, "store": kind.String(), "algorithm": alg, "declared": declKind, "patch_status": stPatch, "put_status": stPut, "pieces": len(pieces)})
+						return
+					}
+				}
+			}
+		}
+		if stPut == 201 {
+			// the acknowledged completion names d: it must be served and (checked above) hash to d
+			if g := vh.Do(srv, vh.Req{Method: "GET", URL: "/v2/il/blobs/" + d}); g.Status != 200 {
+				r.Violation("interleaved-acknowledged-not-served", fmt.Sprintf("PUT ?digest=%s answered 201, GET answers %d", vh.Short(d), g.Status), map[string]any{"trial": i, "store": kind.String()})
+				return
+			}
+		}
+	}
+	r.Count("interleave_trials", 1)
+}
+
 func main() {
 	r := vh.Start()
+	if os.Getenv("VERIF_FOCUS") == "interleave" {
+		n := r.N(200, 6000)
+		vh.Parallel(n, 16, func(i int) { interleave(r, i) })
+		r.Require("interleaved_completions", int64(n*3))
+		r.Require("interleave_served", int64(n))
+		r.Finish("requests of one session in flight together: a streamed PATCH delivering 1-4 pieces races with the completing PUT (declaring the digest of the first part, of everything, or of a prefix), 6 sessions per trial, memory / directory / memory-over-directory stores, 3 algorithms, lock jitter from the vsync shim; every digest a client could name for the session is read under each algorithm with the content-addressing monitor; a case is one raced completion", "interleaved_completions", "cells")
+		return
+	}
 	n := r.N(120, 5000)
-	vh.Parallel(n, 16, func(i int) { batch(r, i) })
+	ni := r.N(40, 1500)
+	vh.Parallel(n+ni, 16, func(i int) {
+		if i < n {
+			batch(r, i)
+		} else {
+			interleave(r, i-n)
+		}
+	})
 	r.Require("uploads", int64(n*8))
 	r.RequireDistinct("cells", 150)
 	r.Require("probes", 5000)
